@@ -34,7 +34,7 @@ SCOPE = ('closure of GridWorld.functional_step per built-in transition function 
          'closure, action-space rejection, and the three membership predicates against an independent oracle on possibly '
          'ill-formed inputs. Closure of compositions and histories follows by induction from per-component closure.')
 BOUNDS = {
-    'quick': dict(lazy_steps='transition closure: shapes 1x1..3x3; each local reward/termination component on next states of the full chain: shapes 1x1..2x2, 1x3, 3x1; 33-object alphabet, every pose/action/held item, every draw',
+    'quick': dict(histories='observation of a state followed by membership of that state (1x3 world with a 1x3 view: the view is the grid for one pose)', lazy_steps='transition closure: shapes 1x1..3x3; each local reward/termination component on next states of the full chain: shapes 1x1..2x2, 1x3, 3x1; 33-object alphabet, every pose/action/held item, every draw',
                   debug_on_steps='shapes 1x2, 2x1 (5-object alphabet) and 2x2 (3-object alphabet), held none/Key, full chain, all poses/actions',
                   predicates='state space 2x2 over {Floor,Wall,Key,Door}x{NONE,YELLOW} (observation space 1x3); candidate states of shape 1x2/2x2/2x3 over a 5-object '
                              'alphabet incl. undeclared type/colour, agent position in [-1,H]x[-1,W], held incl. undeclared',
